@@ -2,7 +2,7 @@
 from ..rules import delivery, flow
 from .common import declare
 
-RULES = ['FANOUT', 'EMIT-SIG', 'PASS-VALUE', 'FIFO-END', 'SWAP-ATOMIC', 'FLUSH-RESETS', 'STATE-PER-INSTANCE', 'FRESH-READ', 'FLAT-RETURN', 'PROPAGATE']
+RULES = ['FANOUT', 'EMIT-SIG', 'PASS-VALUE', 'FIFO-END', 'SWAP-ATOMIC', 'FLUSH-RESETS', 'STATE-PER-INSTANCE', 'FRESH-READ', 'REVERSED-STACK', 'FLAT-RETURN', 'PROPAGATE']
 FLOORS = {'FANOUT': 3, 'EMIT-SIG': 30, 'PASS-VALUE': 14, 'FIFO-END': 10, 'SWAP-ATOMIC': 6, 'FLAT-RETURN': 20, 'PROPAGATE': 30}
 CATALOGUE = ('Stream', 'map', 'starmap', 'filter', 'accumulate', 'slice', 'partition', 'partition_unique',
              'sliding_window', 'unique', 'flatten', 'pluck', 'collect', 'union', 'zip', 'combine_latest', 'zip_latest')
@@ -36,6 +36,7 @@ def run(ctx, R):
     delivery.check_swap_atomic(ctx, R, core)
     delivery.check_flush_resets(ctx, R, core)
     delivery.check_fresh_read(ctx, R, core)
+    delivery.check_reversed_stack(ctx, R, core)
     delivery.check_state_per_instance(ctx, R, [c for c in M.nodes if c.module.name in ('streamz.core', 'streamz.sinks', 'streamz.sources', 'streamz.dask')])
     flow.check_flat_return(ctx, R, core)
     flow.check_propagate(ctx, R, modules=('streamz.core', 'streamz.sinks'), note_modules=())
